@@ -41,6 +41,8 @@ class Tr:
         self.bind = spec.get("bind", {})
         self.mut = spec.get("mut", {})         # python place text -> lean mutable variable
         self.locals = {}
+        for v in spec.get("mut_init", {}):
+            self.locals[v] = True
         self.monadic = spec.get("monadic", False)
 
     def norm(self, node):
@@ -140,6 +142,7 @@ class Tr:
     def ret(self, val):
         outs = [val] if val is not None else []
         outs += [self.mut[k] for k in self.spec.get("mut_order", [])]
+        outs += list(self.spec.get("extra_outs", []))
         if not outs:
             outs = ["()"]
         t = outs[0] if len(outs) == 1 else "(" + ", ".join(outs) + ")"
@@ -179,10 +182,10 @@ class Tr:
                     lines.append(pad + "%s := %s" % (self.mut[ttxt], self.expr(st.value)))
                     continue
                 if isinstance(tgt, ast.Name):
-                    v = self.expr(st.value)
-                    nm = self.spec.get("rename", {}).get(tgt.id, tgt.id)
                     if tgt.id in self.spec.get("dead_locals", []):
                         continue
+                    v = self.expr(st.value)
+                    nm = self.spec.get("rename", {}).get(tgt.id, tgt.id)
                     if tgt.id in self.locals:
                         lines.append(pad + "%s := %s" % (nm, v))
                     else:
@@ -408,6 +411,82 @@ FUNCS = [
      "bind": {"self.observations": "s.obs", "observation.status != RunStatus.FINISHED": "(observation.status != RunStatus.finished)",
               "not self.telescope_status": "(!s.telStatus)", "self.telescope_use == 0": "(s.telUse == 0)"},
      "props": ["C19"]},
+    # ---- C05 / C08: the scheduler-side capacity check with its reservation (F4)
+    {"name": "schedCheckIngest", "file": "topsim/core/scheduler.py", "cls": "Scheduler", "func": "check_ingest_capacity",
+     "mode": "func", "sig": "(bufOk clOk : Bool) (d max_ingest : Int) (prov0 : Int) : Bool × Int",
+     "params_py": ["max_ingest"],
+     "bind": {"self.buffer.check_buffer_capacity(observation)": "bufOk",
+              "pipelines[observation.name]['ingest_demand']": "d",
+              "self.cluster.check_ingest_capacity(pipeline_demand, max_ingest)": "clOk"},
+     "mut": {"self.provision_ingest": "prov"}, "mut_order": ["self.provision_ingest"], "mut_init": {"prov": "prov0"},
+     "local_types": {"buffer_capacity": "Bool", "cluster_capacity": "Bool", "pipeline_demand": "Int"}, "props": ["C05", "C08"]},
+    # ---- C07 / C08: whole-volume admission test of the buffer
+    {"name": "checkBufferCapacity", "file": "topsim/core/buffer.py", "cls": "Buffer", "func": "check_buffer_capacity",
+     "mode": "func", "monadic": True,
+     "sig": "(duration rate hotTotal hotCur : Int) (coldHas : Int → Bool) : Except Err Bool",
+     "bind": {"observation.duration": "duration", "observation.ingest_data_rate": "rate",
+              "self.hot[b].total_capacity": "hotTotal", "self.hot[b].current_capacity": "hotCur",
+              "self.cold[b].has_capacity_for(size)": "(coldHas size)"},
+     "dead_locals": ["b"], "local_types": {"size": "Int"}, "props": ["C07", "C08"]},
+    # ---- C07: freeing on completion
+    {"name": "hotRemove", "file": "topsim/core/buffer.py", "cls": "HotBuffer", "func": "remove",
+     "mode": "func", "sig": "(cur0 : Int) (scheduled0 finished0 : List Oid) (o : Oid) (size : Int) : Bool × Int × List Oid × List Oid",
+     "bind": {"observation in self.observations['scheduled']": "(decide (o ∈ scheduled))",
+              "observation.total_data_size": "size",
+              "self.observations['finished'].append(observation)": "finished := finished ++ [o]",
+              "self.observations['scheduled'].remove(observation)": "scheduled := scheduled.erase o"},
+     "mut": {"self.current_capacity": "cur"}, "mut_order": ["self.current_capacity"],
+     "mut_init": {"cur": "cur0", "scheduled": "scheduled0", "finished": "finished0"},
+     "extra_outs": ["scheduled", "finished"], "props": ["C07"]},
+    # ---- C18: per-step arithmetic of a tier move (all four methods)
+    {"name": "hotTransfer", "file": "topsim/core/buffer.py", "cls": "HotBuffer", "func": "transfer_observation",
+     "mode": "func", "sig": "(cur0 : Int) (slot0 : Option Oid) (o : Oid) (size transfer_rate residual_data : Int) : Int × Int × Option Oid",
+     "params_py": ["transfer_rate", "residual_data"], "mut_params": ["residual_data"],
+     "bind": {"self.observations['transfer'] is None": "slot.isNone", "observation.total_data_size": "size",
+              "observation": "(some o)"},
+     "mut": {"self.current_capacity": "cur", "self.observations['transfer']": "slot"},
+     "mut_order": ["self.current_capacity", "self.observations['transfer']"],
+     "mut_init": {"cur": "cur0", "slot": "slot0"}, "props": ["C18"]},
+    {"name": "coldTransfer", "file": "topsim/core/buffer.py", "cls": "ColdBuffer", "func": "transfer_observation",
+     "mode": "func", "sig": "(cur0 : Int) (slot0 : Option Oid) (o : Oid) (size transfer_rate residual_data : Int) : Int × Int × Option Oid",
+     "params_py": ["transfer_rate", "residual_data"], "mut_params": ["residual_data"],
+     "bind": {"self.observations['transfer'] is None": "slot.isNone", "observation.total_data_size": "size",
+              "observation": "(some o)"},
+     "mut": {"self.current_capacity": "cur", "self.observations['transfer']": "slot"},
+     "mut_order": ["self.current_capacity", "self.observations['transfer']"],
+     "mut_init": {"cur": "cur0", "slot": "slot0"}, "props": ["C18"]},
+    {"name": "hotReceive", "file": "topsim/core/buffer.py", "cls": "HotBuffer", "func": "receive_observation",
+     "mode": "func", "sig": "(cur0 : Int) (stored0 : List Oid) (o : Oid) (size residual_data data_rate : Int) : Int × Int × Option Oid × List Oid",
+     "params_py": ["residual_data", "data_rate"], "mut_params": ["residual_data"],
+     "bind": {"observation.total_data_size": "size", "observation": "(some o)",
+              "self.observations['stored'].append(observation)": "stored := stored ++ [o]"},
+     "mut": {"self.current_capacity": "cur", "self.observations['transfer']": "slot"},
+     "mut_order": ["self.current_capacity", "self.observations['transfer']"],
+     "mut_init": {"cur": "cur0", "slot": "(none : Option Oid)", "stored": "stored0"},
+     "extra_outs": ["stored"], "props": ["C18"]},
+    {"name": "coldReceive", "file": "topsim/core/buffer.py", "cls": "ColdBuffer", "func": "receive_observation",
+     "mode": "func", "sig": "(cur0 : Int) (stored0 : List Oid) (maxRate : Int) (o : Oid) (size residual_data data_rate : Int) (rateNone : Bool) : Int × Int × Option Oid × List Oid",
+     "params_py": ["residual_data", "data_rate"], "mut_params": ["residual_data", "data_rate"],
+     "bind": {"observation.total_data_size": "size", "observation": "(some o)",
+              "data_rate is None": "rateNone", "self.max_data_rate": "maxRate",
+              "self.observations['stored'].append(observation)": "stored := stored ++ [o]"},
+     "mut": {"self.current_capacity": "cur", "self.observations['transfer']": "slot"},
+     "mut_order": ["self.current_capacity", "self.observations['transfer']"],
+     "mut_init": {"cur": "cur0", "slot": "(none : Option Oid)", "stored": "stored0"},
+     "extra_outs": ["stored"], "props": ["C18"]},
+    # ---- C08: array accounting of the telescope
+    {"name": "beginObservation", "file": "topsim/user/telescope.py", "cls": "Telescope", "func": "begin_observation",
+     "mode": "func", "sig": "(use0 : Int) (status0 : Bool) (demand : Int) : RunStatus × Int × Bool",
+     "bind": {"observation.demand": "demand", "RunStatus.RUNNING": "RunStatus.running"},
+     "mut": {"self.telescope_use": "use", "self.telescope_status": "status"},
+     "mut_order": ["self.telescope_use", "self.telescope_status"],
+     "mut_init": {"use": "use0", "status": "status0"}, "props": ["C08"]},
+    {"name": "finishObservation", "file": "topsim/user/telescope.py", "cls": "Telescope", "func": "finish_observation",
+     "mode": "func", "sig": "(use0 : Int) (status0 : Bool) (demand : Int) : RunStatus × Int × Bool",
+     "bind": {"observation.demand": "demand", "RunStatus.FINISHED": "RunStatus.finished"},
+     "mut": {"self.telescope_use": "use", "self.telescope_status": "status"},
+     "mut_order": ["self.telescope_use", "self.telescope_status"],
+     "mut_init": {"use": "use0", "status": "status0"}, "props": ["C08"]},
     # ---- C09: batch provisioning size
     {"name": "maxResourceProvisionNoSplit", "file": "topsim/user/schedule/batch_allocation.py", "cls": "BatchProcessing",
      "func": "_max_resource_provision", "mode": "func", "select_else_of": "self.resource_split",
@@ -450,7 +529,12 @@ def translate(spec, src_cache):
     pre = []
     for v, init in spec.get("mut_init", {}).items():
         pre.append("  let mut %s := %s" % (v, init))
+    for v in spec.get("mut_params", []):
+        pre.append("  let mut %s := %s" % (v, v))
+        tr.locals[v] = True
     lines = tr.block(body, 1)
+    if spec.get("final_return") is not None:
+        lines.append("  " + tr.ret(spec["final_return"] or None))
     monad = "" if tr.monadic else "Id.run "
     return "def %s %s := %sdo\n%s\n" % (name, spec["sig"], monad, "\n".join(pre + lines))
 
